@@ -69,6 +69,12 @@ func (c11) Gen(dt *drv.T, c *Ctx) any {
 	p := &Prog{}
 	p.Body = append(p.Body, &Stmt{Op: "draw", Label: "mode", Gen: &GenSpec{K: "int", IK: "Int", Mode: "range", SA: 0, SB: int64(width - 1)}})
 	p.Body = append(p.Body, &Stmt{Op: "draw", Label: "v", Gen: &GenSpec{K: "int", IK: "Int16"}})
+	if chance(dt, "bigset", 5) {
+		// many distinct elements out of a domain that is only a little larger: some test cases are rejected in the middle
+		// of this draw (too many duplicates); what they leave behind in the generator must not reach the next test case
+		n := drv.IntRange(16, 24).Draw(dt, "bign")
+		p.Body = append(p.Body, &Stmt{Op: "draw", Label: "set", Gen: &GenSpec{K: "slice", Min: n, Max: -1, Fn: "id", Sub: []*GenSpec{{K: "int", IK: "Int", Mode: "range", SA: 0, SB: int64(n + n/4)}}}})
+	}
 	nm := drv.IntRange(1, width).Draw(dt, "nmodes")
 	if nm > 6 {
 		nm = 6
@@ -97,6 +103,9 @@ func (c11) Gen(dt *drv.T, c *Ctx) any {
 	cs.Cfg.Verbose = true
 	cs.Cfg.NoFailFile = true
 	cs.Cfg.ShrinkNS = pick(dt, "shrink", int64(0), 2e7, plentyNS)
+	if len(p.Body) > 2 && p.Body[2].Label == "set" && cs.Cfg.ShrinkNS == plentyNS {
+		cs.Cfg.ShrinkNS = 2e7 // minimizing a set of 40 distinct values to the end takes minutes and adds nothing here
+	}
 	return cs
 }
 
